@@ -90,6 +90,15 @@ def gen_ops(rng, n, ariths, maxp=12, maxg=9):
         p = rng.randint(0, maxp); g = rng.randint(0, maxg) if arith == 'guarded' else 0
         if arith == 'rational':
             args = ['%d/%d' % (rng.randint(-mag, mag), rng.randint(1, mag)) for _ in range(ar)]
+            if op in ('cmp', 'min') and rng.random() < 0.5:
+                # values closer together than any float can tell apart, the larger one often first
+                n0 = rng.randint(-mag, mag); d0 = rng.randint(1, mag); k = 10 ** rng.choice([17, 20, 30, 60])
+                xs = [(n0 * k + rng.choice([0, 1, -1, 2]), d0 * k) for _ in range(ar)]
+                if rng.random() < 0.5:
+                    big = 10 ** rng.choice([16, 25, 40])
+                    xs = [(big + rng.choice([0, 1, 2, -1]), 1) for _ in range(ar)]
+                xs.sort(key=lambda t: t[0] * 1.0 / t[1], reverse=rng.random() < 0.7)
+                args = ['%d/%d' % t for t in xs]
         else:
             args = [str(rng.choice([0, 1, -1, rng.randint(-mag, mag), rng.randint(-mag, mag)])) for _ in range(ar)]
             if op == 'cmp' and arith == 'guarded' and rng.random() < 0.7:
